@@ -158,3 +158,49 @@ func VerifC11SaveLoad() {
 	}
 	verifReach("done")
 }
+
+func init() {
+	verifHarnesses["VerifC11Resave"] = VerifC11Resave
+}
+
+// VerifC11Resave: a repository that was already saved changes (a heavier fork of any length,
+// optionally an invalid mark, optionally Clean) and is saved again; what Load then restores is the
+// current state, not a mixture with the files of the earlier Save.
+func VerifC11Resave() {
+	h := newHist(1000)
+	h.richState()
+	if err := h.repo.Save(h.ctx); err != nil {
+		verifAssert(false, "save-returns-error")
+		return
+	}
+	steps := verifParam("steps", 2)
+	for s := 0; s < steps; s++ {
+		switch pick(fmt.Sprintf("op%d", s), 3) {
+		case 0:
+			hd, p := h.newHeader()
+			h.assumeNoTie(h.record(hd, p))
+			h.repo.ProcessHeader(h.ctx, hd)
+		case 1:
+			h.repo.Clean(h.ctx)
+			verifReach("cleaned")
+		case 2:
+			sel := 1 + pick(fmt.Sprintf("mark%d", s), len(h.hdr)-1)
+			h.repo.MarkHeaderInvalid(h.ctx, h.hash[sel])
+			verifReach("marked")
+		}
+	}
+	before := h.observeRepo(h.repo)
+	if err := h.repo.Save(h.ctx); err != nil {
+		verifAssert(false, "save-returns-error")
+		return
+	}
+	r := NewRepository(h.cfg, h.store)
+	r.DisableDifficulty()
+	if err := r.Load(h.ctx); err != nil {
+		verifAssert(false, "load-returns-error")
+		return
+	}
+	verifObserve("state", before)
+	verifAssert(h.observeRepo(r) == before, "loaded-repository-reports-different-state")
+	verifReach("done")
+}
